@@ -191,6 +191,15 @@ func (h *hist) step() {
 		h.note("s%d close", se.N)
 	case opAdvance:
 		menu := world.AdvanceMenu(h.base)
+		// to just before / just after the next creation-stamp boundary (whatever the clock reads now)
+		if prec := h.base.Precision; prec > time.Second {
+			now := unixAt(w, w.S.Elapsed())
+			toBoundary := now.Truncate(prec).Add(prec).Sub(now)
+			menu = append(menu, toBoundary+time.Second)
+			if toBoundary > 2*time.Second {
+				menu = append(menu, toBoundary-time.Second)
+			}
+		}
 		d := menu[h.t.Choose(len(menu), "advance.d")]
 		if d < 0 {
 			d = time.Second
